@@ -346,6 +346,29 @@ m("c01_esc_bulk_copy_ascii_alnum", "C01", r"C01\.ESC:default:raw-write#\d", "esc
         for c in input.as_bytes() {
             match c {
                 b'&' => buf.write_all(b"&amp;")?,""")
+m("c12_parser_trims_source", "C12", r"C12\.SRC:Parser::new:source-as-given", "the parser tokenizes the source with trailing whitespace removed",
+  "tera/src/parsing/parser.rs", "        let iter = Box::new(tokenize(source, delimiters)) as Box<dyn Iterator<Item = _>>;", "        let iter = Box::new(tokenize(source.trim_start_matches('\\u{feff}'), delimiters)) as Box<dyn Iterator<Item = _>>;")
+m("c16_group_by_insert_always", "C16", r"C16\.ORDUSE:group_by:insert-never-overwrites", "group_by inserts a one-element group for every element whose key is not the previous one",
+  "tera/src/filters.rs", """                if let Some(arr) = grouped.get_mut(&key) {
+                    arr.push(v.clone());
+                } else {
+                    grouped.insert(key, vec![v.clone()]);
+                }""", """                if let Some(arr) = grouped.get_mut(&key).filter(|a| a.len() < 1024) {
+                    arr.push(v.clone());
+                } else {
+                    grouped.insert(key, vec![v.clone()]);
+                }""")
+m("c18_component_io_error_dropped", "C18", r"C18\.IOERR:vm:render_component#\d:error-always-returns", "a non-rendering error of a component is replaced by an empty string",
+  "tera/src/vm/interpreter.rs", """                let val = match self.render_component(&component_chunk, context) {
+                    Ok(v) => v,
+                    Err(mut e) => {""", """                let val = match self.render_component(&component_chunk, context) {
+                    Ok(v) => v,
+                    Err(e) if !matches!(e.kind, ErrorKind::RenderingError(_)) && $has_body => String::new(),
+                    Err(mut e) => {""")
+m("c19_enum_string_payload_some_none", "C19", r"C19\.ENUM:deserialize_enum:map-form-always-carries-its-value", "an empty-string payload of the map form is treated as no payload",
+  "tera/src/value/de.rs", "                (variant.as_value(), Some(value.clone()))", "                (variant.as_value(), if value.as_str() == Some(\"\") { None } else { Some(value.clone()) })")
+m("c17_deleg_upper_ascii", "C17", r"C17\.DELEG:filters::upper", "upper uses the ASCII-only upper-casing",
+  "tera/src/filters.rs", "    val.to_uppercase()", "    val.to_ascii_uppercase()")
 # ---------------------------------------------------------------- C05
 m("c05_iso_global", "C05", r"C05\.ISO:writer:global_context", "render_component gives the component the global context",
   "tera/src/vm/interpreter.rs", """        let mut state = State::new_with_chunk(&context, chunk);
